@@ -8,9 +8,11 @@ mod c20;
 mod container;
 mod convert;
 mod indep;
+mod indep_mvt;
 mod mem;
 mod pipeline;
 mod util;
+mod vt;
 
 fn main() {
 	// panics in code under test are data; keep stderr quiet
@@ -30,6 +32,7 @@ fn main() {
 		("stress", "C13") => c13::stress(&args[3], &args[4], seed, thorough),
 		("replay", "C14") => c14::replay(&args[3], &args[4]),
 		("record", "C14") => c14::record(&args[3], seed, thorough),
+		("replay", "VT") => vt::replay(&args[3], &args[4], &args[5]),
 		("replay", "PIPELINE") => pipeline::replay(&args[3], &args[4], &args[5]),
 		("replay", "CONVERT") => convert::replay(&args[3], &args[4], &args[5]),
 		("replay", "CONTAINER") => container::replay(&args[3], &args[4], &args[5], &args[6]),
